@@ -55,17 +55,19 @@ def fcidump(ctx):
     wd = p.func("pyscf_interface.write_dqmc")
     rd = p.func("mpi_jax._prep_afqmc")
     wparams = [x.name for x in wd.params]
-    wblock, wf = _with_var(wd.node, lambda c: (dotted(c.func) or "").endswith("File"))
+    from ..model import norm
+    wnode, rnode = norm(wd.node), norm(rd.node)      # single-use temporaries substituted into their use
+    wblock, wf = _with_var(wnode, lambda c: (dotted(c.func) or "").endswith("File"))
     if wf is None:
         raise AnalysisError("write_dqmc no longer opens an h5py.File in a with block")
     written: Dict[str, ast.AST] = {}
-    for nd in ast.walk(wd.node):
+    for nd in ast.walk(wnode):
         if isinstance(nd, ast.Assign) and isinstance(nd.targets[0], ast.Subscript) and \
                 isinstance(nd.targets[0].value, ast.Name) and nd.targets[0].value.id == wf:
             k = _str_const(nd.targets[0].slice)
             if k:
                 written[k] = nd.value
-    fblock, rf = _with_var(rd.node, lambda c: bool(c.args) and _str_const(c.args[0]) == "FCIDUMP_chol")
+    fblock, rf = _with_var(rnode, lambda c: bool(c.args) and _str_const(c.args[0]) == "FCIDUMP_chol")
     if fblock is None:
         raise AnalysisError("_prep_afqmc no longer opens FCIDUMP_chol")
     read: Dict[str, ast.AST] = {}
@@ -101,7 +103,7 @@ def fcidump(ctx):
                 w_roles.append("?")
     r_roles: Dict[str, str] = {}
     split_ok = False
-    for nd in ast.walk(rd.node):
+    for nd in ast.walk(rnode):
         # ((N + abs(M)) // 2, (N - abs(M)) // 2)
         if isinstance(nd, ast.Tuple) and len(nd.elts) == 2 and all(
                 isinstance(e, ast.BinOp) and isinstance(e.op, ast.FloorDiv) and isinstance(e.right, ast.Constant)
@@ -146,7 +148,7 @@ def fcidump(ctx):
         return False
 
     chol_2d = any(isinstance(nd, ast.Assert) and "len(chol.shape) == 2" in ast.unparse(nd.test)
-                  for nd in ast.walk(wd.node))
+                  for nd in ast.walk(wnode))
     ctx.ob("KEYS-2", "FCIDUMP_chol: hcore written flat row-major, read back as (nmo, nmo)",
            flat("hcore") and nmo_name is not None and reshaped("hcore", [nmo_name, nmo_name]),
            "flatten() <-> reshape(nmo, nmo)", wd)
@@ -473,7 +475,8 @@ def ene_err(ctx):
     ctx.ob("KEYS-2", "mpi_jax: (energy, error) = driver.afqmc(...)", pair is not None and pair[0] != pair[1], f"{pair}",
            mod=mod.name)
     w = None
-    for nd in ast.walk(mod.tree):
+    from ..model import norm
+    for nd in ast.walk(norm(mod.tree)):
         if isinstance(nd, ast.Call) and (dotted(nd.func) or "").endswith("savetxt") and len(nd.args) >= 2 and \
                 _str_const(nd.args[0]) == "ene_err.txt":
             v = nd.args[1]
@@ -483,13 +486,14 @@ def ene_err(ctx):
                 w = [e_.id if isinstance(e_, ast.Name) else None for e_ in v.elts]
     ra = p.func("run_afqmc.run_afqmc")
     lv = None
-    for nd in ast.walk(ra.node):
+    ranode = norm(ra.node)
+    for nd in ast.walk(ranode):
         if isinstance(nd, ast.Assign) and isinstance(nd.targets[0], ast.Name) and isinstance(nd.value, ast.Call) and \
                 (dotted(nd.value.func) or "").endswith("loadtxt") and nd.value.args and \
                 _str_const(nd.value.args[0]) == "ene_err.txt":
             lv = nd.targets[0].id
     from ..model import returned_values
-    rets = [v_ for _, v_ in returned_values(ra.node)]
+    rets = [v_ for _, v_ in returned_values(ranode)]
     r_idx = None
     if rets and isinstance(rets[-1], ast.Tuple):
         r_idx = [e_.slice.value if isinstance(e_, ast.Subscript) and isinstance(e_.value, ast.Name) and e_.value.id == lv
